@@ -1,8 +1,8 @@
 #!/usr/bin/env python3
 """Print the markdown table of seeded changes (DESIGN.md section 14) from seeded/*/meta.json."""
-import glob, json, os
+import glob, json, os, re
 print("| seed | property | needs to manifest | result of the check |")
 print("|------|----------|-------------------|---------------------|")
-for d in sorted(glob.glob('/verif/seeded/S*')):
+for d in sorted(glob.glob('/verif/seeded/S*'), key=lambda d: int(re.match(r'S(\d+)', os.path.basename(d)).group(1))):
     m = json.load(open(os.path.join(d, 'meta.json')))
     print("| %s | %s | %s | %s |" % (m['id'], m['breaks_property'], m['needs_to_manifest'].replace('|', '/'), m['check_result'].replace('|', '/').replace('\n', ' ')))
